@@ -1429,10 +1429,29 @@ func (d *DFA) determinize(cache *DFACache, current *State, b byte) (*State, erro
 			// Max clears exceeded - fall back to NFA
 			return nil, clearErr
 		}
-		// Cache was cleared successfully. Return errCacheCleared to signal
-		// the search loop that all state pointers are now stale and it must
-		// re-obtain the start state at the current position.
-		return nil, errCacheCleared
+		// Cache was cleared successfully and every state ID is gone. The search
+		// must carry on from the state it was in (restarting from a start state
+		// at this position would forget the input consumed so far), so re-create
+		// that state under a new ID, insert the target again and link the two.
+		cur := NewStateWithStride(InvalidState, current.NFAStates(), current.IsMatch(), current.IsFromWord(), d.AlphabetLen())
+		cur.matchAtWordBoundary = current.matchAtWordBoundary
+		cur.matchAtNonWordBoundary = current.matchAtNonWordBoundary
+		curKey := ComputeStateKeyWithWordAndMatch(current.NFAStates(), current.IsFromWord(), current.IsMatch())
+		if _, err := cache.Insert(curKey, cur); err != nil {
+			return nil, ErrCacheFull
+		}
+		cache.registerState(cur)
+		if existing, ok := cache.Get(key); ok {
+			// (the target is the state just re-created)
+			cache.SetFlatTransition(cur.id, int(classIdx), existing.ID())
+			return existing, nil
+		}
+		if _, err := cache.Insert(key, newState); err != nil {
+			return nil, ErrCacheFull
+		}
+		cache.registerState(newState)
+		cache.SetFlatTransition(cur.id, int(classIdx), newState.ID())
+		return newState, nil
 	}
 
 	// Register state in ID lookup map
